@@ -49,3 +49,84 @@ M('C05','silent-explicit-unlock','kvstore/mapdb/synced_map.go','''	s.Lock()
 	delete(s.m, string(key))''','''	s.Lock()
 	delete(s.m, string(key))
 	s.Unlock()''','',silent=True)
+
+# ---------------- C06
+M('C06','compute-wrong-var','kvstore/typedvalue.go','newValueBytesErr := t.vToBytes(newValue); newValueBytesErr != nil','newValueBytesErr := t.vToBytes(newValue); err != nil','err/checked error of field vToBytes in kvstore.TypedValue.Compute')
+M('C06','set-cache-before-store','kvstore/typedvalue.go','''	if valueBytes, err := t.vToBytes(value); err != nil {
+		return ierrors.Wrap(err, "failed to encode value")
+	} else if err = t.kv.Set(t.keyBytes, valueBytes); err != nil {
+		return ierrors.Wrap(err, "failed to store value in KV store")
+	}
+
+	t.valueCached = &value
+	t.hasCached = &truePtr
+''','''	t.valueCached = &value
+	t.hasCached = &truePtr
+	if valueBytes, err := t.vToBytes(value); err != nil {
+		return ierrors.Wrap(err, "failed to encode value")
+	} else if err = t.kv.Set(t.keyBytes, valueBytes); err != nil {
+		return ierrors.Wrap(err, "failed to store value in KV store")
+	}
+''','cache/after-store-success valueCached write in kvstore.TypedValue.Set')
+M('C06','delete-swallow','kvstore/typedvalue.go','''	if err = t.kv.Delete(t.keyBytes); err != nil {
+		return ierrors.Wrap(err, "failed to delete entry from KV store")
+	}''','''	if err = t.kv.Delete(t.keyBytes); err != nil {
+		return nil
+	}''','err/failure-returns-error nil-error return in kvstore.TypedValue.Delete')
+M('C06','get-absence-any-error','kvstore/typedvalue.go','''		if ierrors.Is(valueBytesErr, ErrKeyNotFound) {
+			t.hasCached = &falsePtr
+		}
+''','''		t.hasCached = &falsePtr
+''','cache/after-store-success hasCached write in kvstore.TypedValue.Get (absence)')
+M('C06','compute-split-section','kvstore/typedvalue.go','''	t.mutex.Lock()
+	defer t.mutex.Unlock()
+
+	currentValue, exists := t.cachedValue()''','''	t.mutex.RLock()
+	currentValue, exists := t.cachedValue()
+	t.mutex.RUnlock()
+	t.mutex.Lock()
+	defer t.mutex.Unlock()
+''','lock/one-write-section kvstore.TypedValue.Compute')
+M('C06','has-nolock-second','kvstore/typedvalue.go','''	// If we have a cache miss, get lock and check again
+	t.mutex.Lock()
+	defer t.mutex.Unlock()
+
+	if t.hasCached != nil {
+		return *t.hasCached, nil
+	} else if''','''	// If we have a cache miss, get lock and check again
+	if t.hasCached != nil {
+		return *t.hasCached, nil
+	} else if''','lock/guarded-by TypedValue.hasCached in kvstore.TypedValue.Has')
+M('C06','store-set-drop-err','kvstore/typedstore.go','''	err = t.kv.Set(keyBytes, valueBytes)
+	if err != nil {
+		return ierrors.Wrap(err, "failed to store in KV store")
+	}
+
+	return nil''','''	err = t.kv.Set(keyBytes, valueBytes)
+
+	return nil''','err/checked error of KVStore.Set in kvstore.TypedStore.Set')
+M('C06','store-set-raw-key','kvstore/typedstore.go','''	err = t.kv.Set(keyBytes, valueBytes)''','''	err = t.kv.Set(valueBytes, keyBytes)''','codec/plumbing kvstore.TypedStore.Set')
+M('C06','iterate-continue-on-error','kvstore/typedstore.go','''		valueDecoded, _, valueErr := t.bytesToValue(value)
+		if valueErr != nil {
+			innerErr = valueErr
+
+			return false
+		}''','''		valueDecoded, _, valueErr := t.bytesToValue(value)
+		if valueErr != nil {
+			innerErr = valueErr
+
+			return true
+		}''','iterate/stop-and-report kvstore.TypedStore.Iterate')
+M('C06','iteratekeys-lose-error','kvstore/typedstore.go','''		return ierrors.Wrap(iterationErr, "failed to iterate keys over KV store")
+	}
+
+	return innerErr''','''		return ierrors.Wrap(iterationErr, "failed to iterate keys over KV store")
+	}
+	_ = innerErr
+
+	return nil''','iterate/stop-and-report kvstore.TypedStore.IterateKeys')
+M('C06','silent-reorder-cache-writes','kvstore/typedvalue.go','''	t.valueCached = nil
+	t.hasCached = &falsePtr
+''','''	t.hasCached = &falsePtr
+	t.valueCached = nil
+''','',silent=True)
